@@ -179,10 +179,14 @@ def run(ctx):
             seen.add(b.id)
             out.append(b)
             for c in b.calls():
-                g = F.fns.get(c.target_id) if c.target_id else None
-                if g is not None and g.blocks and g.name.startswith("server::") and g.id not in seen and not b.is_cleanup(c.bb):
-                    work.append(g)
-                    work += F.descendants(g.id)
+                # direct callees, and functions handed to an adapter by name (`.map(simulated_tx_info)`)
+                gids = [c.target_id] + [((a.get("fn") or {}).get("res") or {}).get("id") or (a.get("fn") or {}).get("id")
+                                        for a in c.args if isinstance(a, dict) and a.get("k") == "const" and a.get("fn")]
+                for gid in gids:
+                    g = F.fns.get(gid) if gid else None
+                    if g is not None and g.blocks and g.name.startswith("server::") and g.id not in seen and not b.is_cleanup(c.bb):
+                        work.append(g)
+                        work += F.descendants(g.id)
         return out
 
     for name, hh in sorted(handlers.items()):
